@@ -579,17 +579,19 @@ theorem ignored_accounted : Gen.Send.sendersIgnored = ["defer EtherBufferPool.Pu
 
 theorem wrappers_accounted : Gen.Send.wrappersTranslated =
     ["ICMP4SendEchoRequest", "ICMP6SendEchoRequest", "ICMP6SendNeighborAdvertisement", "ICMP6SendNeighbourSolicitation",
-     "arp_spoofer_AnnounceTo", "arp_spoofer_Probe", "arp_spoofer_Reply", "arp_spoofer_Request", "arp_spoofer_RequestTo"] := by decide
+     "ICMP6SendRouterSolicitation", "arp_spoofer_AnnounceTo", "arp_spoofer_Probe", "arp_spoofer_Reply", "arp_spoofer_Request", "arp_spoofer_RequestTo"] := by decide
 
-/-- functions ending in a send-path call that are not translated: the RA / RS senders (their messages are built by the
-    allocating ndp marshal code), and the NBNS / mDNS query builders (`string` names, dnsmessage) -/
+/-- functions ending in a send-path call that are not translated: the RA sender (it builds its option list in loops;
+    the RS sender is translated since builder T, Props/C07SendMarshal), and the NBNS / mDNS query builders (`string`
+    names, dnsmessage) -/
 theorem wrappers_untranslated_accounted : Gen.Send.wrappersUntranslated.map (·.1) =
-    ["ICMP6SendRouterAdvertisement", "ICMP6SendRouterSolicitation", "dns_naming_SendNBNSNodeStatus", "dns_naming_SendNBNSQuery",
+    ["ICMP6SendRouterAdvertisement", "dns_naming_SendNBNSNodeStatus", "dns_naming_SendNBNSQuery",
      "dns_naming_SendSleepProxyResponse", "dns_naming_sendMDNSQuery"] := by decide
 
 theorem dict_accounted : Gen.Send.sendersDict =
     ["Checksum = checksum", "Ether(make([]byte, N)) = a zeroed buffer of N bytes (the argument g is not used)",
      "Ether.Payload = etherPayloadSl (nil ↦ nilSl)",
+     "marshalExternals = never reached (every option of the literal is translated)",
      "netip.Addr.IsLinkLocalUnicast || IsLinkLocalMulticast = isLLUorLLM",
      "package-level address variables of package packet = their initialisers"] := by decide
 
@@ -603,6 +605,7 @@ theorem session_args_accounted : Gen.Send.sendersSessionArgs = [
     ("icmp4SendPacket", ["HostAddr4_MAC"]), ("icmp6SendPacket", ["HostAddr4_MAC"]),
     ("ICMP4SendEchoRequest", ["HostAddr4_MAC"]), ("ICMP6SendEchoRequest", ["HostAddr4_MAC"]),
     ("ICMP6SendNeighborAdvertisement", ["HostAddr4_MAC"]), ("ICMP6SendNeighbourSolicitation", ["HostAddr4_MAC"]),
+    ("ICMP6SendRouterSolicitation", ["HostAddr4_MAC", "HostLLA_Addr"]),
     ("arp_spoofer_AnnounceTo", ["HostAddr4_MAC"]), ("arp_spoofer_Probe", ["HostAddr4_MAC"]), ("arp_spoofer_Reply", ["HostAddr4_MAC"]),
     ("arp_spoofer_Request", ["HostAddr4_MAC", "HostAddr4_IP", "HostAddr4_Port"]),
     ("arp_spoofer_RequestTo", ["HostAddr4_MAC", "HostAddr4_IP", "HostAddr4_Port"])] := by decide
